@@ -1,6 +1,6 @@
 PROP = dict(
     id='C20', level='exploration',
-    pyvc=[],
+    pyvc=['contracts.c20'],
     finite=[],
     bounded='bounded.c20',
     bounded_budget=dict(quick=45, thorough=420),
